@@ -110,6 +110,15 @@ def check(prop, ev, bounds=None, cvc5_cross=False):
             inconc.append(f"stdlib closure function drives its closure outside the four Runner methods: {badusers}")
     except Unencodable as e:
         inconc.append(f"unencodable (Runner): {e}")
+    import ctorlemmas, constlemmas
+    try:
+        cobls, cfns = ctorlemmas.obligations(S)
+        kobls, kfns, assumed = constlemmas.obligations(S, {"array": (bounds or {}).get("array", 2)})
+        obls = obls + cobls + kobls
+        fns = sorted(set(fns) | set(cfns) | set(kfns))
+        ev.cov["constant_soundness_assumed_for"] = assumed
+    except Unencodable as e:
+        inconc.append(f"unencodable (constructor / constant lemmas): {e}")
     ev.cov["functions_encoded"] = [f"{n} [mir sha256:{h}]" for n, h in fns]
     ev.cov["node_stats"] = stats
     ev.cov["expression_impls_audited"] = found
@@ -147,11 +156,16 @@ def check(prop, ev, bounds=None, cvc5_cross=False):
         lab = child_label(S.types.struct_fields(node if node not in ("AssignVariant",) else "Variant", o.ex.hint_mod) or [])
         res = None
         try:
-            if role.startswith("C17:"):
+            if role.endswith(":constant-matches-runtime"):
+                node = role.split(":")[1]
+                res = [(a, b, {}) for a, b in constlemmas.battery(node)] or None
+            elif role.endswith(":node-holds-the-given-subexpressions"):
+                res = [(a, b, {}) for a, b in ctorlemmas.battery()] or None
+            elif role.startswith("C17:"):
                 res = c17_witness(role)
             elif ":Runner::" in role:
                 rw = runnerlemmas.runner_witness(role)
-                res = (rw[0], rw[1], {}) if rw else None
+                res = [(a, b, {}) for a, b in rw] if rw else None
             else:
                 res = make_witness(o, model, lab)
         except Exception as e:  # noqa
@@ -160,22 +174,25 @@ def check(prop, ev, bounds=None, cvc5_cross=False):
         if res is None:
             inconc.append(f"{role}: refuted by the solver, but no witness template exists for this node (cannot replay)")
             continue
-        spec, exp, shapes = res
+        variants = res if isinstance(res, list) else [res]
         nat = {}
         reproduced = False
-        for prof in ("dev", "release"):
-            obs = vrl_replay.call("run", [spec], prof)
-            if obs is None:
-                nat[prof] = "replayer unavailable"
-                continue
-            mm = witness.mismatch(obs[0], exp)
-            if mm is None:
-                nat[prof] = f"witness program rejected by the compiler: {obs[0].get('messages')}"
-            elif mm:
-                nat[prof] = "REPRODUCED: " + "; ".join(mm)
-                reproduced = True
-            else:
-                nat[prof] = "not reproduced (observation matches expectation)"
+        for spec, exp, shapes in variants:
+            for prof in ("dev", "release"):
+                obs = vrl_replay.call("run", [spec], prof)
+                if obs is None:
+                    nat[prof] = "replayer unavailable"
+                    continue
+                mm = witness.mismatch(obs[0], exp)
+                if mm is None:
+                    nat[prof] = f"witness program rejected by the compiler: {obs[0].get('messages')}"
+                elif mm:
+                    nat[prof] = "REPRODUCED: " + "; ".join(mm)
+                    reproduced = True
+                else:
+                    nat[prof] = "not reproduced (observation matches expectation)"
+            if reproduced:
+                break
         if reproduced:
             os.makedirs(os.path.join(common.VERIF, "replays"), exist_ok=True)
             h = hashlib.sha1((role + spec["source"]).encode()).hexdigest()[:10]
